@@ -68,7 +68,8 @@ func vcReadInts(sh *tsdb.Shard, m string) (times []int64, vals []int64, err erro
 func TestVerifConcVisibility(t *testing.T) {
 	rounds := vtrace.EnvInt("VERIF_ROUNDS", 6)
 	outDir := os.Getenv("VERIF_TRACE_DIR")
-	totalReads, totalWrites := 0, 0
+	var totalReads int64
+	totalWrites := 0
 	for r := 0; r < rounds; r++ {
 		index := []string{"inmem", "tsi1"}[r%2]
 		s := MustOpenStore(index)
@@ -129,7 +130,7 @@ func TestVerifConcVisibility(t *testing.T) {
 					}
 					m := int64(len(times))
 					rec.add(map[string]interface{}{"e": "read.end", "r": rname, "s": name, "m": m, "contiguous": contiguous})
-					totalReads++
+					atomic.AddInt64(&totalReads, 1)
 					if err != nil {
 						fail("conc:read:error", fmt.Sprintf("read %s: %v", name, err))
 					} else if !contiguous {
